@@ -770,13 +770,25 @@ func (e *ConditionalExpr) Value(ctx *hcl.EvalContext) (cty.Value, hcl.Diagnostic
 	}
 
 	if resultType == cty.NilType {
+		mismatch := describeConditionalTypeMismatch(trueResult.Type(), falseResult.Type())
+		if trueResult.ContainsMarked() || falseResult.ContainsMarked() {
+			// NOTE: we don't know what any marks might've represented up at
+			// the calling application layer, and the attribute names of an
+			// object built from marked keys are themselves derived from the
+			// marked values, so in this case we describe only the outermost
+			// types rather than naming the attributes that differ.
+			mismatch = fmt.Sprintf(
+				"The 'true' value is %s, but the 'false' value is %s",
+				trueResult.Type().FriendlyName(), falseResult.Type().FriendlyName(),
+			)
+		}
 		return cty.DynamicVal, hcl.Diagnostics{
 			{
 				Severity: hcl.DiagError,
 				Summary:  "Inconsistent conditional result types",
 				Detail: fmt.Sprintf(
 					"The true and false result expressions must have consistent types. %s.",
-					describeConditionalTypeMismatch(trueResult.Type(), falseResult.Type()),
+					mismatch,
 				),
 				Subject:     hcl.RangeBetween(e.TrueResult.Range(), e.FalseResult.Range()).Ptr(),
 				Context:     &e.SrcRange,
